@@ -398,10 +398,10 @@ func ignoreFamily(p *core.Prog, r *core.Result) []*types.Named {
 
 func init() {
 	register(&PropSpec{
-		ID:    "C13",
-		Level: "other",
-		Decided: "(a) for every one of the unfolder's state types, by-value and by-reference delivery of strings and of keys are either both handled or both rejected; (b) the states that skip an unknown member accept every event that may legally occur inside the skipped value (17 scalar events + by-reference strings, both container starts, both child-done hooks, and keys inside a skipped object), and the family can close arrays and objects; (c) every On<number> method that forwards to another On<number> event keeps the number class (signed/unsigned/float).",
-		NotDecided: "assignment semantics, numeric conversion 'whenever the value fits' (the generated unfolders convert unchecked by design), fields not mentioned staying untouched, the generic interface{} target's value. Those need execution against a reference.",
+		ID:          "C13",
+		Level:       "other",
+		Decided:     "(a) for every one of the unfolder's state types, by-value and by-reference delivery of strings and of keys are either both handled or both rejected; (b) the states that skip an unknown member accept every event that may legally occur inside the skipped value (17 scalar events + by-reference strings, both container starts, both child-done hooks, and keys inside a skipped object), and the family can close arrays and objects; (c) every On<number> method that forwards to another On<number> event keeps the number class (signed/unsigned/float).",
+		NotDecided:  "assignment semantics, numeric conversion 'whenever the value fits' (the generated unfolders convert unchecked by design), fields not mentioned staying untouched, the generic interface{} target's value. Those need execution against a reference.",
 		Assumptions: []string{"a method that only returns a package-level error is a rejection; anything else is treated as handling the event"},
 		TrustedBase: baseTrusted,
 		Rules:       []RuleRun{{"R12", R12}},
